@@ -88,6 +88,42 @@ theorem C10_server_copyMove (s : Srv) (i : Nat) (move byUid : Bool) (set : List 
       show (s.setBox dest _).box x.box = _
       rw [box_setBox_ne _ _ _ _ (Ne.symm hne)]
 
+/-- **EXPUNGE/CLOSE in the tied server model**: the stale-view re-expunge (uids already gone are handed to `delete` again, and
+logged again) does not touch the content: the mailbox is the one `Session.expungeCmd` leaves, about which `C10_expunge_refines`
+speaks -/
+theorem C10_server_expunge (s : Srv) (x : Sel) (uidSet : Option (List Elem)) :
+    abs (delete (s.box x.box) (expungeUids s x uidSet)) = abs (expungeCmd (s.box x.box) x.view uidSet) := by
+  rw [abs_delete]
+  unfold expungeCmd
+  rw [abs_delete]
+  apply List.filter_congr
+  intro m hm
+  simp only [abs, List.mem_map] at hm
+  obtain ⟨m0, hm0, rfl⟩ := hm
+  -- a live message is found
+  have hlive : ∃ m1, (s.box x.box).find m0.uid = some m1 := by
+    cases h : (s.box x.box).find m0.uid with
+    | some m1 => exact ⟨m1, rfl⟩
+    | none =>
+      have := List.find?_eq_none.1 h m0 hm0
+      simp at this
+  obtain ⟨m1, hm1⟩ := hlive
+  have e : ∀ (l : List Nat),
+      (l.filter (fun u => match (s.box x.box).find u with
+        | some m => m.flags.contains deletedF
+        | none => (graveFlags s x.box u x).contains deletedF)).contains m0.uid =
+      (l.filter (fun u => match (s.box x.box).find u with
+        | some m => m.flags.contains deletedF
+        | none => false)).contains m0.uid := by
+    intro l
+    rw [Bool.eq_iff_iff]
+    simp only [List.contains_iff_mem, List.mem_filter, hm1]
+  show (!(List.contains (expungeUids s x uidSet) (toS m0).uid)) = _
+  unfold expungeUids
+  simp only [toS]
+  congr 1
+  exact e _
+
 /-- flag sets are stored in canonical order; nothing else differs -/
 def normS (m : Spec.SMsg) : Spec.SMsg := { m with flags := sortAsc m.flags }
 
